@@ -96,7 +96,17 @@ class FnAlias:
         if p is not None and (p == path or path.startswith(p + ".")):
             if p == path:
                 return self.roots(value, dn)
-            return set()   # sub-path of a freshly assigned object: follow the object
+            # path is an attribute of the object assigned here. A *shallow* copy shares its attributes with the
+            # original until they are rebound; any other call result is a fresh object with fresh attributes.
+            src = shallow_copy_source(value)
+            if src is not None:
+                sp = path_of(src)
+                if sp is not None:
+                    return self.roots_of_path(dn, sp + path[len(p):])
+                return set()
+            if isinstance(value, (ast.Name, ast.Attribute)) and path_of(value) is not None:
+                return self.roots_of_path(dn, path_of(value) + path[len(p):])
+            return set()
         if isinstance(tgt, (ast.Tuple, ast.List)):
             if isinstance(value, (ast.Tuple, ast.List)) and len(value.elts) == len(tgt.elts):
                 for t, v in zip(tgt.elts, value.elts):
@@ -207,6 +217,17 @@ class FnAlias:
             for r in sorted(roots):
                 res.append((r, n, a, kind))
         return res
+
+
+def shallow_copy_source(e) -> Optional[ast.expr]:
+    """E if `e` is copy(E) / copy.copy(E) / E._make_copy(): a shallow copy whose attributes alias E's."""
+    if isinstance(e, ast.Call):
+        cn = call_name(e)
+        if cn in ("copy", "copy.copy") and len(e.args) == 1:
+            return e.args[0]
+        if isinstance(e.func, ast.Attribute) and e.func.attr == "_make_copy" and not e.args:
+            return e.func.value
+    return None
 
 
 def _flatten_targets(t):
